@@ -272,9 +272,12 @@ func (w *wk) invoke(cl *callable, args, kwv []int, kwn []string, ctr *int) (v st
 	v, err = starlark.Call(th, fn, a, kw)
 	steps = th.ExecutionSteps()
 	if err == nil && v != nil && ctr == nil {
-		_ = v.String() // a returned value must at least be printable
+		_ = v.String() // a returned value must at least be printable,
 		_ = v.Type()
 		_ = v.Truth()
+		_, _ = v.Hash()              // hashable or refused,
+		_, _ = starlark.Equal(v, v)  // comparable with itself,
+		v.Freeze()                   // and freezable (what happens to it when stored in a global)
 	}
 	return v, err, steps
 }
